@@ -9,6 +9,8 @@
 //          (call index + begin/parameter step/return-value fetch/expectedCallsLeft probe/end of test), the first line of
 //          the message against the set of diagnoses allowed there, the return value and output bytes of every
 //          successful call, the result of expectedCallsLeft(), and the number of reports.
+// Plugin mode (first byte with bits 5 and 6 set, 1 case in 4): 2..4 such scenarios as consecutive tests of one private
+//          TestRegistry/TestResult under the repository's MockSupportPlugin; per test: failure count, first line, mock() clear.
 #include "common.h"
 #include "CppUTestExt/MockSupport.h"
 #include "CppUTestExt/MockSupportPlugin.h"
@@ -470,53 +472,7 @@ int check_return(MockNamedValue v, bool has, const ExpSpec* e, const FuncSpec* f
     return 0;
 }
 
-int run_case(Reader& r, bool& nontrivial, std::string& desc) {
-    Case cs; decode(r, cs);
-    desc = render(cs);
-    if (verif::g_explain) fprintf(stderr, "CASE %s\n", desc.c_str());
-
-    // generator histogram
-    {
-        std::vector<std::string> classes;
-        for (auto& c : cs.calls) { std::string k = scoped(c.scope, fname(c)); for (auto& s : c.steps) if (s.kind != S_OUT) k += sfmt("|%s%d.%d.%d", s.name.c_str(), s.kind, s.val, s.obj); classes.push_back(k); }
-        std::sort(classes.begin(), classes.end()); classes.erase(std::unique(classes.begin(), classes.end()), classes.end());
-        bool mutated = false; for (auto& m : cs.mutkinds) if (m.compare(0, 4, "noop") != 0) mutated = true;
-        nontrivial = cs.calls.size() >= 3 && classes.size() >= 2 && (cs.interleaved || mutated);
-        if (cs.calls.size() >= 3) verif::cls("shape:calls>=3");
-        if (classes.size() >= 2) verif::cls("shape:classes>=2");
-        if (cs.interleaved || mutated) verif::cls("shape:interleaved-or-mutated");
-        if (cs.strictMask) verif::cls("feature:strict-order");
-        if (cs.iocMode) verif::cls("feature:ignore-other-calls");
-        bool sc[3] = {false, false, false}, fio = false, fobj = false, fout = false, fret = false, nocall = false, multi = false, sameclass = false;
-        for (size_t i = 0; i < cs.ex.size(); i++) { auto& e = cs.ex[i]; sc[e.scope] = true; const FuncSpec& f = cs.fs[e.func];
-            if (f.ignoreOther) fio = true; if (f.objects) fobj = true; if (f.nout) fout = true; if (e.hasRet) fret = true; if (e.count == 0) nocall = true; if (e.count > 1) multi = true;
-            for (size_t j = 0; j < i; j++) if (cs.ex[j].scope == e.scope && cs.ex[j].func == e.func) sameclass = true; }
-        if (sc[1] || sc[2]) verif::cls("feature:scopes");
-        if (fio) verif::cls("feature:ignore-other-parameters");
-        if (fobj) verif::cls("feature:objects");
-        if (fout) verif::cls("feature:output-parameters");
-        if (fret) verif::cls("feature:return-values");
-        if (nocall) verif::cls("feature:expect-no-call");
-        if (multi) verif::cls("feature:expectNCalls>1");
-        if (sameclass) verif::cls("feature:several-expectations-on-one-function");
-        if (cs.interleaved) verif::cls("feature:interleaved");
-        if (cs.mutkinds.empty()) verif::cls("mutation:none");
-        for (auto& m : cs.mutkinds) verif::cls(("mutation:" + m).c_str());
-    }
-
-    // -------- set up the real scenario
-    RecReporter rep;
-    MockSupport root;
-    struct Clear { MockSupport& m; ~Clear() { m.clear(); } } clear_at_exit{root};
-    root.setMockFailureStandardReporter(&rep);
-    root.setActiveReporter(&rep);
-    root.setDefaultComparatorsAndCopiersRepository();
-    root.crashOnFailure(false);
-    MockSupport* sc[3] = {&root, root.getMockSupportScope("a"), root.getMockSupportScope("b")};
-    sc[1]->setActiveReporter(&rep); sc[2]->setActiveReporter(&rep);
-    for (int s = 0; s < 3; s++) if (cs.strictMask & (1 << s)) sc[s]->strictOrder();
-    if (cs.iocMode == 1) root.ignoreOtherCalls(); else if (cs.iocMode == 2) sc[1]->ignoreOtherCalls(); else if (cs.iocMode == 3) sc[2]->ignoreOtherCalls();
-
+void declare_expectations(MockSupport* const sc[3], Case& cs) {
     for (size_t i = 0; i < cs.ex.size(); i++) {
         ExpSpec& e = cs.ex[i]; const FuncSpec& f = cs.fs[e.func];
         if (e.how == 2) { sc[e.scope]->expectNoCall(kFunc[e.func]); continue; }
@@ -544,6 +500,74 @@ int run_case(Reader& r, bool& nontrivial, std::string& desc) {
             }
         }
     }
+}
+
+void apply_step(MockActualCall& ac, const Step& s, uint8_t* obuf) {
+    if (s.kind == S_IN) {
+        switch (s.type) {
+        case T_INT: ac.withIntParameter(s.name.c_str(), s.name == "xx" ? 7 : kInt[s.val]); break;
+        case T_STR: ac.withStringParameter(s.name.c_str(), kStr[s.val]); break;
+        case T_ULONG: ac.withUnsignedLongIntParameter(s.name.c_str(), kUlong[s.val]); break;
+        case T_DOUBLE: ac.withDoubleParameter(s.name.c_str(), kDouble[s.val]); break;
+        case T_PTR: ac.withPointerParameter(s.name.c_str(), ptr_value(s.val)); break;
+        default: ac.withBoolParameter(s.name.c_str(), (s.val & 1) != 0); break;
+        }
+    } else if (s.kind == S_OUT) ac.withOutputParameter(s.name.c_str(), obuf);
+    else ac.onObject(&g_objs[s.obj]);
+}
+
+// generator histogram; returns the NT verdict of DESIGN.md for one scenario
+bool note_features(const Case& cs) {
+        std::vector<std::string> classes;
+        for (auto& c : cs.calls) { std::string k = scoped(c.scope, fname(c)); for (auto& s : c.steps) if (s.kind != S_OUT) k += sfmt("|%s%d.%d.%d", s.name.c_str(), s.kind, s.val, s.obj); classes.push_back(k); }
+        std::sort(classes.begin(), classes.end()); classes.erase(std::unique(classes.begin(), classes.end()), classes.end());
+        bool mutated = false; for (auto& m : cs.mutkinds) if (m.compare(0, 4, "noop") != 0) mutated = true;
+        bool nontrivial = cs.calls.size() >= 3 && classes.size() >= 2 && (cs.interleaved || mutated);
+        if (cs.calls.size() >= 3) verif::cls("shape:calls>=3");
+        if (classes.size() >= 2) verif::cls("shape:classes>=2");
+        if (cs.interleaved || mutated) verif::cls("shape:interleaved-or-mutated");
+        if (cs.strictMask) verif::cls("feature:strict-order");
+        if (cs.iocMode) verif::cls("feature:ignore-other-calls");
+        bool sc[3] = {false, false, false}, fio = false, fobj = false, fout = false, fret = false, nocall = false, multi = false, sameclass = false;
+        for (size_t i = 0; i < cs.ex.size(); i++) { auto& e = cs.ex[i]; sc[e.scope] = true; const FuncSpec& f = cs.fs[e.func];
+            if (f.ignoreOther) fio = true; if (f.objects) fobj = true; if (f.nout) fout = true; if (e.hasRet) fret = true; if (e.count == 0) nocall = true; if (e.count > 1) multi = true;
+            for (size_t j = 0; j < i; j++) if (cs.ex[j].scope == e.scope && cs.ex[j].func == e.func) sameclass = true; }
+        if (sc[1] || sc[2]) verif::cls("feature:scopes");
+        if (fio) verif::cls("feature:ignore-other-parameters");
+        if (fobj) verif::cls("feature:objects");
+        if (fout) verif::cls("feature:output-parameters");
+        if (fret) verif::cls("feature:return-values");
+        if (nocall) verif::cls("feature:expect-no-call");
+        if (multi) verif::cls("feature:expectNCalls>1");
+        if (sameclass) verif::cls("feature:several-expectations-on-one-function");
+        if (cs.interleaved) verif::cls("feature:interleaved");
+        if (cs.mutkinds.empty()) verif::cls("mutation:none");
+        for (auto& m : cs.mutkinds) verif::cls(("mutation:" + m).c_str());
+        return nontrivial;
+}
+
+int run_case(Reader& r, bool& nontrivial, std::string& desc) {
+    Case cs; decode(r, cs);
+    desc = render(cs);
+    if (verif::g_explain) fprintf(stderr, "CASE %s\n", desc.c_str());
+
+    nontrivial = note_features(cs);
+    verif::cls("mode:direct");
+
+    // -------- set up the real scenario
+    RecReporter rep;
+    MockSupport root;
+    struct Clear { MockSupport& m; ~Clear() { m.clear(); } } clear_at_exit{root};
+    root.setMockFailureStandardReporter(&rep);
+    root.setActiveReporter(&rep);
+    root.setDefaultComparatorsAndCopiersRepository();
+    root.crashOnFailure(false);
+    MockSupport* sc[3] = {&root, root.getMockSupportScope("a"), root.getMockSupportScope("b")};
+    sc[1]->setActiveReporter(&rep); sc[2]->setActiveReporter(&rep);
+    for (int s = 0; s < 3; s++) if (cs.strictMask & (1 << s)) sc[s]->strictOrder();
+    if (cs.iocMode == 1) root.ignoreOtherCalls(); else if (cs.iocMode == 2) sc[1]->ignoreOtherCalls(); else if (cs.iocMode == 3) sc[2]->ignoreOtherCalls();
+
+    declare_expectations(sc, cs);
     if (rep.n != 0) return verif::fail("C08:failure-nobody-caused", "declaring the expectations already produced a report \"%s\" [%s]", first_line(rep.msgs[0]).c_str(), desc.c_str());
 
     // -------- run real code and model in lock step
@@ -573,17 +597,7 @@ int run_case(Reader& r, bool& nontrivial, std::string& desc) {
         for (size_t si = 0; si < c.steps.size(); si++) {
             const Step& s = c.steps[si];
             before = rep.n; due.clear();
-            if (s.kind == S_IN) {
-                switch (s.type) {
-                case T_INT: ac.withIntParameter(s.name.c_str(), s.name == "xx" ? 7 : kInt[s.val]); break;
-                case T_STR: ac.withStringParameter(s.name.c_str(), kStr[s.val]); break;
-                case T_ULONG: ac.withUnsignedLongIntParameter(s.name.c_str(), kUlong[s.val]); break;
-                case T_DOUBLE: ac.withDoubleParameter(s.name.c_str(), kDouble[s.val]); break;
-                case T_PTR: ac.withPointerParameter(s.name.c_str(), ptr_value(s.val)); break;
-                default: ac.withBoolParameter(s.name.c_str(), (s.val & 1) != 0); break;
-                }
-            } else if (s.kind == S_OUT) ac.withOutputParameter(s.name.c_str(), obuf[si]);
-            else ac.onObject(&g_objs[s.obj]);
+            apply_step(ac, s, obuf[si]);
             isdue = m.step(c, s, due);
             if (verif::g_explain) fprintf(stderr, "     step %zu kind=%d %s: reports=%d%s\n", si, s.kind, s.name.c_str(), rep.n - before, isdue ? " (model: failure due)" : "");
             j = judge({(int)k, "parameter/object step", (int)si}, isdue, due, false, rep, before, desc, outcome);
@@ -650,14 +664,171 @@ int run_case(Reader& r, bool& nontrivial, std::string& desc) {
     return 0;
 }
 
+// ---------------------------------------------------------------------------------------------- plugin mode
+// 2..4 scenarios run as consecutive tests of ONE private TestRegistry / TestResult with the repository's MockSupportPlugin
+// installed, on the global mock() with the default (terminating) reporter during the test body and the plugin's own reporter
+// at end of test.  Judged per test: number of failures (one deviation -> exactly one failure; a passing scenario -> none; a
+// test that already failed by its own check -> no additional mock failure), first line of the mock failure against the
+// model's set, and that nothing of test k is left in mock() when test k+1 starts.
+struct Prediction { bool fails; bool atEnd; AllowSet set; int call; };
+
+// the model alone over one scenario: the first position at which a report is due
+Prediction simulate(Case& cs) {
+    Model m; m.fs = cs.fs; m.ex = &cs.ex; m.iocMode = cs.iocMode; m.strictMask = cs.strictMask;
+    for (auto& e : cs.ex) e.consumed = 0;
+    for (size_t k = 0; k < cs.calls.size(); k++) {
+        CallSpec& c = cs.calls[k];
+        if (c.steps.size() > 16) c.steps.resize(16);
+        AllowSet due; bool tol = false;
+        if (m.begin(c, due, tol)) return {true, false, due, (int)k};
+        for (auto& st : c.steps) { due.clear(); if (m.step(c, st, due)) return {true, false, due, (int)k}; }
+        AllowSet deferred;
+        m.finish(c, deferred);
+        bool unmatched = !m.ignored && m.matched < 0;
+        if (c.fetch != 2) { if (unmatched) return {true, false, deferred, (int)k}; }
+        else if (unmatched) { m.pendingSet[c.scope] = true; m.pending[c.scope] = deferred; }
+        if (c.probe) { due.clear(); if (m.any_pending(due)) return {true, false, due, (int)k}; }
+    }
+    AllowSet due;
+    if (m.end(due)) return {true, true, due, -1};
+    return {false, false, {}, -1};
+}
+
+const char* const kOwnCheckText = "own check of the test";
+struct PluginTest { Case cs; int own; std::string desc; bool leftoverAtStart; };   // own: 0 none, 1 fails after declaring, 2 fails after the calls, 3 passing check
+
+void plugin_body(void* arg) {
+    PluginTest& t = *(PluginTest*)arg;
+    Case& cs = t.cs;
+    if (mock().expectedCallsLeft()) t.leftoverAtStart = true;
+    MockSupport* sc[3] = {&mock(), &mock("a"), &mock("b")};
+    for (int s = 0; s < 3; s++) if (cs.strictMask & (1 << s)) sc[s]->strictOrder();
+    if (cs.iocMode == 1) sc[0]->ignoreOtherCalls(); else if (cs.iocMode == 2) sc[1]->ignoreOtherCalls(); else if (cs.iocMode == 3) sc[2]->ignoreOtherCalls();
+    declare_expectations(sc, cs);
+    if (t.own == 1) FAIL(kOwnCheckText);
+    if (t.own == 3) CHECK(true);
+    for (size_t k = 0; k < cs.calls.size(); k++) {
+        CallSpec& c = cs.calls[k];
+        uint8_t obuf[16][24]; memset(obuf, 0xEE, sizeof obuf);
+        std::string fn = fname(c);
+        MockActualCall& ac = sc[c.scope]->actualCall(fn.c_str());       // any mock failure in here ends the test (default reporter)
+        for (size_t si = 0; si < c.steps.size() && si < 16; si++) apply_step(ac, c.steps[si], obuf[si]);
+        if (c.fetch == 0) { (void)ac.hasReturnValue(); (void)ac.returnValue(); }
+        else if (c.fetch == 1) { (void)sc[c.scope]->hasReturnValue(); (void)sc[c.scope]->returnValue(); }
+        if (c.probe) (void)mock().expectedCallsLeft();
+    }
+    if (t.own == 2) FAIL(kOwnCheckText);
+}
+
+struct RecOutput : TestOutput {
+    std::vector<std::pair<std::string, std::string> > fails;
+    void printBuffer(const char*) CPPUTEST_OVERRIDE {}
+    void flush() CPPUTEST_OVERRIDE {}
+    void printFailure(const TestFailure& f) CPPUTEST_OVERRIDE { fails.push_back(std::make_pair(std::string(f.getTestNameOnly().asCharString()), std::string(f.getMessage().asCharString()))); }
+};
+struct ScenarioShell : ExecFunctionTestShell {
+    verif::ExecLambda fn;
+    ScenarioShell(const char* name, void* arg) : fn(plugin_body, arg) { setGroupName("C08"); setTestName(name); testFunction_ = &fn; }
+};
+
+int run_plugin_case(Reader& r, bool& nontrivial, std::string& desc) {
+    static const char* const names[4] = {"t0", "t1", "t2", "t3"};
+    (void)r.u8();                                  // the byte that selected this mode
+    int ntests = 2 + (int)r.below(3);
+    std::vector<PluginTest> tests((size_t)ntests);
+    for (int i = 0; i < ntests; i++) {
+        static const int owns[8] = {0, 0, 1, 2, 3, 0, 2, 0};
+        tests[(size_t)i].own = owns[r.below(8)];
+        tests[(size_t)i].leftoverAtStart = false;
+        decode(r, tests[(size_t)i].cs);
+        static const char* const ownname[4] = {"", " OWN-CHECK-FAILS-BEFORE-CALLS", " OWN-CHECK-FAILS-AFTER-CALLS", " passing-own-check"};
+        tests[(size_t)i].desc = render(tests[(size_t)i].cs);
+        desc += sfmt("%sTEST %s%s: %s", i ? " || " : "PLUGIN RUN: ", names[i], ownname[tests[(size_t)i].own], tests[(size_t)i].desc.c_str());
+        if (note_features(tests[(size_t)i].cs)) nontrivial = true;
+    }
+    verif::cls("mode:plugin");
+    if (verif::g_explain) fprintf(stderr, "%s\n", desc.c_str());
+
+    // model: what each test must end with
+    struct Expect { int kind; AllowSet set; bool atEnd; };      // kind: 0 no failure, 1 own check, 2 mock failure
+    std::vector<Expect> want((size_t)ntests);
+    bool earlierFailed = false;
+    for (int i = 0; i < ntests; i++) {
+        PluginTest& t = tests[(size_t)i];
+        Expect& w = want[(size_t)i]; w.kind = 0; w.atEnd = false;
+        if (t.own == 1) { w.kind = 1; verif::cls("plugin-test:own-check-fails-before-calls"); }
+        else {
+            Prediction p = simulate(t.cs);
+            for (auto& e : t.cs.ex) e.consumed = 0;
+            if (p.fails && !p.atEnd) { w.kind = 2; w.set = p.set; }
+            else if (t.own == 2) { w.kind = 1; verif::cls(p.fails ? "plugin-test:own-check-fails-then-no-end-of-test-report" : "plugin-test:own-check-fails-after-calls"); }
+            else if (p.fails) { w.kind = 2; w.set = p.set; w.atEnd = true; }
+        }
+        if (w.kind == 2 && w.atEnd) { verif::cls("plugin-test:end-of-test-failure"); if (earlierFailed) verif::cls("plugin-test:end-of-test-failure-after-an-earlier-failed-test"); }
+        if (w.kind == 2 && !w.atEnd) verif::cls("plugin-test:failure-during-the-calls");
+        if (w.kind == 0) verif::cls(earlierFailed ? "plugin-test:passes-after-an-earlier-failed-test" : "plugin-test:passes");
+        if (w.kind != 0) earlierFailed = true;
+    }
+
+    // real run
+    RecOutput out; size_t total; bool leftoverAfterRun;
+    {
+        mock().clear();
+        MockSupportPlugin plugin;
+        TestRegistry registry;
+        TestResult result(out);
+        std::vector<ScenarioShell*> shells;
+        for (int i = 0; i < ntests; i++) shells.push_back(new ScenarioShell(names[i], &tests[(size_t)i]));
+        registry.installPlugin(&plugin);
+        for (int i = ntests - 1; i >= 0; i--) registry.addTest(shells[(size_t)i]);   // addTest prepends
+        registry.setCurrentRegistry(&registry);
+        registry.runAllTests(result);
+        registry.setCurrentRegistry(NULLPTR);
+        total = result.getFailureCount();
+        leftoverAfterRun = mock().expectedCallsLeft();
+        mock().clear();
+        mock().setMockFailureStandardReporter(NULLPTR);
+        for (auto* sh : shells) delete sh;
+    }
+
+    size_t wanted_total = 0;
+    for (int i = 0; i < ntests; i++) {
+        const Expect& w = want[(size_t)i];
+        std::vector<std::string> got;
+        for (auto& f : out.fails) if (f.first == names[i]) got.push_back(f.second);
+        if (verif::g_explain) { fprintf(stderr, "  %s: %zu failure(s)%s", names[i], got.size(), w.kind == 0 ? " (model: passes)" : w.kind == 1 ? " (model: own check)" : " (model: mock failure)"); for (auto& g : got) fprintf(stderr, " [%s]", first_line(g).c_str()); fprintf(stderr, "\n"); }
+        if (tests[(size_t)i].leftoverAtStart)
+            return verif::fail("C08:plugin-mock-not-clear-between-tests", "test %s of one run started with expectedCallsLeft() true: something of the previous test is still in mock() [%s]", names[i], desc.c_str());
+        if (w.kind != 0) wanted_total++;
+        if (w.kind == 0 && !got.empty())
+            return verif::fail("C08:plugin-failure-nobody-caused", "test %s (test %d of %d in one run) failed with \"%s\" although its actual calls match its expectations [%s]", names[i], i + 1, ntests, first_line(got[0]).c_str(), desc.c_str());
+        if (w.kind != 0 && got.empty())
+            return verif::fail("C08:plugin-deviation-not-reported", "test %s (test %d of %d in one run) passed, the model expects %s (%s) [%s]", names[i], i + 1, ntests,
+                               w.kind == 1 ? "its own check to fail" : (w.atEnd ? "a mock failure at end of test" : "a mock failure during the calls"), w.kind == 2 ? render_allowed(w.set).c_str() : kOwnCheckText, desc.c_str());
+        if (w.kind == 0) continue;
+        std::string line = first_line(got[0]);
+        if (w.kind == 1 && line != kOwnCheckText)
+            return verif::fail("C08:plugin-wrong-diagnosis", "test %s: first failure is \"%s\", expected its own check [%s]", names[i], line.c_str(), desc.c_str());
+        if (w.kind == 2 && !match_allowed(w.set, line))
+            return verif::fail("C08:plugin-wrong-diagnosis", "test %s: first failure is \"%s\"; allowed for this deviation: %s [%s]", names[i], line.c_str(), render_allowed(w.set).c_str(), desc.c_str());
+        if (got.size() > 1)
+            return verif::fail("C08:plugin-test-failed-more-than-once", "test %s got %zu failures for one deviation: \"%s\" then \"%s\" [%s]", names[i], got.size(), line.c_str(), first_line(got[1]).c_str(), desc.c_str());
+        if (w.kind == 2) verif::cls((std::string("plugin-outcome:") + match_allowed(w.set, line)->cls).c_str());
+    }
+    V_CHECK(total == wanted_total && out.fails.size() == wanted_total, "C08:plugin-failure-count", "the run reports %zu failures (%zu printed), the model expects %zu [%s]", total, out.fails.size(), wanted_total, desc.c_str());
+    V_CHECK(!leftoverAfterRun, "C08:plugin-mock-not-clear-between-tests", "expectedCallsLeft() is true after the last test of the run [%s]", desc.c_str());
+    return 0;
+}
+
 }  // namespace
 
 extern "C" const char* verif_property(void) { return "C08"; }
-extern "C" void verif_init(void) {}
+extern "C" void verif_init(void) { verif::install_fake_time(); }
 extern "C" int verif_case(const uint8_t* data, size_t size) {
     Reader r(data, size);
     bool nontrivial = false; std::string desc;
-    int rc = run_case(r, nontrivial, desc);
+    bool plugin_mode = size > 0 && ((data[0] >> 5) & 3) == 3;     // direct mode uses bits 0..4 of the first byte only
+    int rc = plugin_mode ? run_plugin_case(r, nontrivial, desc) : run_case(r, nontrivial, desc);
     verif::note_case(nontrivial, r.h, [&] { return desc; });
     return rc;
 }
